@@ -73,8 +73,8 @@ MapPut(f, k, v) == [x \in (DOMAIN f) \cup {k} |-> IF x = k THEN v ELSE f[x]]
 Fams == {4, 6}
 NewQuery(thr, idany, id, nonce, pwd) ==
   [st |-> "queued", thr |-> thr, idany |-> idany, id |-> id, nonce |-> nonce, pwd |-> pwd,
-   s |-> None, fam |-> 4, k |-> 1, rc |-> 0, rt |-> 0, rd |-> 0, txc |-> 0, txall |-> 0,
-   signed |-> FALSE, sig |-> 0, canc |-> FALSE, cbs |-> 0, res |-> -1, match |-> 0, deliv |-> 0]
+   s |-> None, fam |-> 4, k |-> 1, rc |-> 0, rt |-> 0, rd |-> 0, txc |-> 0, txall |-> 0, tried |-> {},
+   signed |-> FALSE, sig |-> 0, canc |-> FALSE, cbs |-> 0, res |-> -1, match |-> 0, deliv |-> FALSE]
 NewSock(u) == [u |-> u, slot |-> EmptyMap, tm |-> EmptyMap, qidx |-> 0, cnt |-> 0]
 InitState(smin, smax, nas, nthr) ==
   [cfg |-> [smin |-> smin, smax |-> smax, nas |-> nas, nthr |-> nthr],
@@ -84,7 +84,7 @@ InitState(smin, smax, nas, nthr) ==
    msgs |-> [t \in 0..(nthr - 1) |-> << >>],
    netq |-> {}, netr |-> {}, nextu |-> 1, nextx |-> 1,
    up |-> TRUE, leaktm |-> 0, leaksk |-> 0,
-   unsafe |-> {}, txac |-> FALSE, offarm |-> FALSE]
+   unsafe |-> {}, txac |-> FALSE, offarm |-> FALSE, nasbad |-> FALSE]
 NewServer(fam, irt, mrt, mrd, mrc, sec) == [fam |-> fam, irt |-> irt, mrt |-> mrt, mrd |-> mrd, mrc |-> mrc, sec |-> sec]
 
 (* jitter: radius_client_rnd_factor(data) = +-(data / k), k in 1..127.  J = [def |-> class, map |-> <<<<d, class>>...>>] *)
@@ -131,7 +131,7 @@ Done(st, q, err, rep, dv) ==
            cc == IF err = 0 /\ ~lost THEN rep.code ELSE 1
            st2 == [r1.st EXCEPT !.qs[q].st = "done", !.qs[q].cbs = @ + 1, !.qs[q].res = err,
                                 !.qs[q].match = IF err = 0 THEN rep ELSE 0,
-                                !.qs[q].deliv = IF err = 0 /\ ~lost THEN rep ELSE 0]
+                                !.qs[q].deliv = (err = 0 /\ ~lost)]
        IN Then(r1, Mk(st2, << [e |-> "cb", t |-> Q.thr, q |-> q, err |-> err, d |-> dd, code |-> cc] >>, 0,
                       IF err = 0 THEN {DvReply} ELSE {}, IF lost THEN {DvReply} ELSE {}))
 
@@ -145,8 +145,9 @@ Send(st, q, dv) ==
       oen == OTmr(t, s, f, i, "en", Q.rt, 1)
       otx == [e |-> "tx", t |-> t, x |-> x, u |-> sock.u, s |-> s, fam |-> f, k |-> k, i |-> i, nonce |-> Q.nonce,
               nas |-> nas, sig |-> Q.sig, pwd |-> IF Q.pwd = 1 THEN 1 ELSE -1, rc |-> err]
-      st1 == [st EXCEPT !.nextx = IF Ident THEN @ + 1 ELSE @, !.qs[q].txc = @ + 1, !.qs[q].txall = @ + 1,
-                        !.txac = @ \/ Q.canc \/ Q.st # "active"]
+      st1 == [st EXCEPT !.nextx = IF Ident THEN @ + 1 ELSE @, !.qs[q].txc = @ + 1, !.qs[q].txall = @ + 1, !.qs[q].tried = @ \cup {k},
+                        !.txac = @ \/ Q.canc \/ Q.st # "active",
+                        !.nasbad = @ \/ (st.cfg.nas = 1 /\ nas = 0)]
       pn == IF st.cfg.nas = 1 THEN {DvNas} ELSE {}
       un == IF st.cfg.nas = 1 /\ DvNas \in dv THEN {DvNas} ELSE {}
   IN IF err # 0
@@ -378,12 +379,14 @@ PMatch(st) == \A q \in DOMAIN st.qs : LET Q == st.qs[q] IN
                     LET m == Q.match IN
                     /\ m.ok /\ m.wf /\ m.code \notin {1, 13}
                     /\ m.nonce = Q.nonce /\ m.src = Q.k /\ m.sec = st.srv[Q.k].sec
-PDelivered(st) == \A q \in DOMAIN st.qs : LET Q == st.qs[q] IN (Q.st = "done" /\ Q.res = 0) => Q.deliv = Q.match
+PDelivered(st) == \A q \in DOMAIN st.qs : LET Q == st.qs[q] IN (Q.st = "done" /\ Q.res = 0) => Q.deliv
+LocalErrors == {0, EINTR, EAGAIN, 24, EDESTADDRREQ, ECONNREFUSED, ECANCELED}   \* 24 = EMFILE (socket() failed)
 PFailover(st) == \A q \in DOMAIN st.qs : LET Q == st.qs[q] IN
-                    (Q.st = "done" /\ Q.cbs = 1 /\ Q.res \notin {0, EINTR, EAGAIN}) => Q.k >= Len(st.srv)
+                    (Q.st = "done" /\ Q.cbs = 1 /\ Q.res \notin LocalErrors) => Q.tried = 1..Len(st.srv)
 PQuiescent(st) == (Pending(st) = {}) =>
                      /\ NTimers(st) = 0
                      /\ \A key \in Keys(st) : \A s \in 1..Len(st.sk[key]) : st.sk[key][s].cnt = 0
 PDestroyed(st) == ~st.up => (NSocks(st) = 0 /\ NTimers(st) = 0 /\ Active(st) = {})
 PMemSafe(st) == st.unsafe = {}
+PNas(st) == ~st.nasbad
 =============================================================================
